@@ -50,38 +50,70 @@ theorem C02_teddy_find_eq_reference {O : MetaFind2.Oracles2} {P : MetaFind2.Para
   ⟨MetaFind2.findIndicesTeddy_eq_ref ht (fun g => hn (g.elim Or.inl (fun g' => Or.inr (Or.inr g')))),
    MetaFind2.findIndicesTeddyAt_eq_ref ht hn hat⟩
 
-/-- the `Find` / `FindAt` twins of find.go (`findTeddy`, `findTeddyAt`) with the Fat Teddy small-haystack fallback: the
-    Aho-Corasick fallback automaton's `Find` (at 0) resp. `FindAt` (at `at`) must be the reference SEARCH — the dependency's
-    `FindAt` is an anchored match (`MetaFind2.cex_fat_findAt_anchored`, reproduced on the real `Engine.FindAt`) -/
-theorem C02_teddy_findAt_eq_reference_under_contract {O : MetaFind2.Oracles2} {P : MetaFind2.Params2}
+/-- the `Find` / `FindAt` twins of find.go (`findTeddy`, `findTeddyAt`) with the Fat Teddy small-haystack fallback
+    (HEAD 21d622b): both SEARCH with the Aho-Corasick fallback automaton's `Find` (the anchored `FindAt` of the earlier code was
+    wrong: `MetaFind2.cex_fat_findAt_anchored`), and the contract is what the dependency actually does (`FatOK`): the automaton
+    reports the occurrence of a literal that ENDS first — exact because compile.go builds the fallback only for literal sets
+    in which no literal occurs inside another one (`hasNestedLiteral lits = false`).  (The name keeps its `_under_contract`
+    suffix; the contract is now the realistic one.) -/
+theorem C02_teddy_findAt_eq_reference_under_contract {O : MetaFind2.Oracles2} {P : MetaFind2.Params2} {lits : List Bytes}
     {Mt : Bytes → Nat → Nat → Prop} {ref : Bytes → Nat → Option MetaFind.Span} {h : Bytes} {at_ : Nat} (hat : at_ ≤ h.size)
     (ht : P.hasPrefilter = true → MetaFind2.TeddyOK O P Mt ref h) (K : MetaFind.PikeOK O.toOracles ref h)
-    (hfat0 : MetaFind2.useFatFallback P h = true → O.fatFind h 0 = ref h 0)
-    (hfat : MetaFind2.useFatFallback P h = true → O.fatFindAt h at_ = ref h at_) :
+    (hfat : P.hasFatFallback = true → MetaFind2.FatOK O lits Mt h) :
     MetaFind2.findTeddy O P h = ref h 0 ∧ MetaFind2.findTeddyAt O P h at_ = ref h at_ :=
-  ⟨MetaFind2.findTeddy_eq_ref ht K hfat0, MetaFind2.findTeddyAt_eq_ref ht K hfat hat⟩
+  ⟨MetaFind2.findTeddy_eq_ref ht K hfat, MetaFind2.findTeddyAt_eq_ref ht K hfat hat⟩
 
-/-- **UseAhoCorasick** (`findIndicesAhoCorasick`, `…At`; meta/find_indices.go l.1153-1178; `findAhoCorasick(At)` of find.go):
-    the automaton's `Find` answer is returned as it is — correct UNDER THE CONTRACT `AhoOK`: `Find(h, a)` is the reference
-    search (leftmost occurrence, first alternative).  The contract is necessary (`MetaFind2.cex_aho_ends_first`: literals
-    {rdqs1b, dqs} on "rdqs1b") and github.com/coregx/ahocorasick v0.3.0 does NOT meet it: its `Find` reports the occurrence
-    that ENDS first. -/
-theorem C02_ahoCorasick_find_eq_reference_under_contract {O : MetaFind2.Oracles2} {P : MetaFind2.Params2}
+/-- **UseAhoCorasick** (`findIndicesAhoCorasick`, `…At`, `ahoCorasickSpan`; meta/find_indices.go l.1153-1196;
+    `findAhoCorasick(At)` of find.go) returns the reference's span — UNDER THE REALISTIC CONTRACT `AhoEndsFirstOK` (the name of
+    the theorem is kept; the unrealistic `AhoOK` = "`Find` is the reference search" is gone): the automaton of
+    github.com/coregx/ahocorasick v0.3.0 reports the occurrence of a literal that ENDS first among those starting at or after
+    `at` (`MetaFind2.EndsFirstOK`; which one among those with the same end is immaterial — the real one reports the longest).
+    `AhoLitOK` bundles it with: the matches are the occurrences of the literals `lits` (`mt_iff`; `ref` is any reference
+    meeting `RefOK`); the engine's `ahoCorasickNested` / `ahoCorasickMaxLen` describe the list (`AcSetOK`: every literal is at most
+    `maxLen` long, `nested = false` only if `prefilter.HasNestedLiteral` = `MetaFind2.hasNestedLiteral lits` is false — decidable,
+    `MetaFind2.acSetOK_compile`); for nested sets the Pike VM is the reference search.
+    Why it holds: without nesting an occurrence that started earlier would contain the reported one and two literals at one start
+    would be prefix-related, so ends-first = leftmost-first (`MetaFind2.endsFirst_eq_ref`, `endsFirst_eq_refLit` for the
+    executable reference `refLit`); with nesting no occurrence starts before `lo = max(at, end − maxLen)`
+    (`MetaFind2.endsFirst_lo`) and the reference restarted at `lo` answers the same (`RefOK.restart`).
+    Both the flag and the bound are necessary: `MetaFind2.cex_aho_nested_flag_needed` ({rdqs1b, dqs} on "rdqs1b": the direct
+    return answers [1,4), the reference [0,6)), `MetaFind2.cex_aho_maxLen_needed`; the former counter-model is now
+    `MetaFind2.cex_aho_ends_first_fixed`. -/
+theorem C02_ahoCorasick_find_eq_reference_under_contract {O : MetaFind2.Oracles2} {P : MetaFind2.Params2} {lits : List Bytes}
     {Mt : Bytes → Nat → Nat → Prop} {ref : Bytes → Nat → Option MetaFind.Span} {h : Bytes} {at_ : Nat} (hat : at_ ≤ h.size)
-    (ha : P.hasAho = true → MetaFind2.AhoOK O ref h)
+    (ha : P.hasAho = true → MetaFind2.AhoLitOK O P lits Mt ref h)
     (hn : P.hasAho = false ∨ at_ = h.size → MetaFind2.NfaOK O P Mt ref h) :
     MetaFind2.findIndicesAhoCorasick O P h = ref h 0 ∧ MetaFind2.findIndicesAhoCorasickAt O P h at_ = ref h at_ :=
   ⟨MetaFind2.findIndicesAhoCorasick_eq_ref ha (fun g => hn (Or.inl g)), MetaFind2.findIndicesAhoCorasickAt_eq_ref ha hn hat⟩
 
+/-- the `Find` / `FindAt` twins of find.go (`findAhoCorasick`, `findAhoCorasickAt`): the same `ahoCorasickSpan` -/
+theorem C02_ahoCorasick_findAt_eq_reference {O : MetaFind2.Oracles2} {P : MetaFind2.Params2} {lits : List Bytes}
+    {Mt : Bytes → Nat → Nat → Prop} {ref : Bytes → Nat → Option MetaFind.Span} {h : Bytes} {at_ : Nat} (hat : at_ ≤ h.size)
+    (ha : P.hasAho = true → MetaFind2.AhoLitOK O P lits Mt ref h) (K : MetaFind.PikeOK O.toOracles ref h) :
+    MetaFind2.findAhoCorasick O P h = ref h 0 ∧ MetaFind2.findAhoCorasickAt O P h at_ = ref h at_ :=
+  ⟨MetaFind2.findAhoCorasick_eq_ref ha K, MetaFind2.findAhoCorasickAt_eq_ref ha K hat⟩
+
+/-- **closed**: for EVERY list of literals — nested or not — and EVERY haystack, the UseAhoCorasick functions over the
+    brute-force ends-first automaton `MetaFind2.endsFirst` (which meets `EndsFirstOK`: `MetaFind2.endsFirst_ok`), the engine's flags
+    computed as compile.go computes them, return the leftmost-first reference of the alternation `MetaFind2.refLit`
+    (leftmost start, then the first literal in list order) -/
+theorem C02_ahoCorasick_find_eq_refLit_closed (lits : List Bytes) (h : Bytes) {at_ : Nat} (hat : at_ ≤ h.size) :
+    let P : MetaFind2.Params2 :=
+      { hasAho := true, acNested := MetaFind2.hasNestedLiteral lits, acMaxLen := MetaFind2.litMaxLen lits }
+    MetaFind2.findIndicesAhoCorasickAt (MetaFind2.acOracles lits) P h at_ = MetaFind2.refLit lits h at_ ∧
+    MetaFind2.findIndicesAhoCorasick (MetaFind2.acOracles lits) P h = MetaFind2.refLit lits h 0 :=
+  ⟨(MetaFind2.acOracles_instance lits h hat).1, (MetaFind2.acOracles_instance lits h hat).2.1⟩
+
 /-- the dispatch `FindIndices` / `FindIndicesAt` / `findIndicesAtWithState` for the three strategies, including the
     always-anchored early exit and the leftmost-longest routing of `searchStrategy()` (engine.go l.266-277: the NFA functions
-    search; `ref` then is the leftmost-longest reference and only `NfaOK` is needed) -/
-theorem C02_metaFind2_dispatch_eq_reference {O : MetaFind2.Oracles2} {P : MetaFind2.Params2} {Mt : Bytes → Nat → Nat → Prop}
-    {ref : Bytes → Nat → Option MetaFind.Span} {h : Bytes} (st : MetaFind2.Strategy2) {at_ : Nat} (hat : at_ ≤ h.size)
+    search; `ref` then is the leftmost-longest reference and only `NfaOK` is needed); `lits`: the literal list of
+    the UseAhoCorasick contracts (`AhoLitOK`) -/
+theorem C02_metaFind2_dispatch_eq_reference {O : MetaFind2.Oracles2} {P : MetaFind2.Params2} {lits : List Bytes}
+    {Mt : Bytes → Nat → Nat → Prop} {ref : Bytes → Nat → Option MetaFind.Span} {h : Bytes} (st : MetaFind2.Strategy2) {at_ : Nat} (hat : at_ ≤ h.size)
     (R : MetaFind.RefOK Mt ref h) (hanch : P.alwaysAnchored = true → ∀ s e, s ≤ h.size → Mt h s e → s = 0)
     (hl : P.longest = true → MetaFind2.NfaOK O P Mt ref h)
-    (h0 : P.longest = false → MetaFind2.StratOK O P Mt ref h 0 st)
-    (hs : P.longest = false → MetaFind2.StratOK O P Mt ref h at_ st) :
+    (h0 : P.longest = false → MetaFind2.StratOK O P lits Mt ref h 0 st)
+    (hs : P.longest = false → MetaFind2.StratOK O P lits Mt ref h at_ st) :
     MetaFind2.findIndices O P st h = ref h 0 ∧ MetaFind2.findIndicesAt O P st h at_ = ref h at_ ∧
     MetaFind2.findIndicesAtWithState O P st h at_ = ref h at_ :=
   ⟨MetaFind2.findIndices_eq_ref st hl h0, MetaFind2.findIndicesAt_eq_ref st hat R hanch hl hs,
